@@ -449,6 +449,10 @@ pub struct TrackDesc {
     pub poison: bool,
     /// (class, attribute, feature)
     pub obs: Vec<(u64, Option<i32>, Option<i32>)>,
+    /// the track is re-identified after construction (`set_track_id`): its id changes, its merge
+    /// history keeps the id it was created with
+    #[serde(default)]
+    pub reid: Option<u64>,
 }
 
 pub fn build_both(d: &TrackDesc, ctl: &Arc<Ctl>, notifier: &HN) -> (HTrack, MTrack) {
@@ -464,6 +468,10 @@ pub fn build_both(d: &TrackDesc, ctl: &Arc<Ctl>, notifier: &HN) -> (HTrack, MTra
         let r1 = t.add_observation(*c, a.map(HO), f.map(feat), None);
         let (r2, _) = m.add_observation(*c, a.map(HO), f.map(feat), None);
         assert_eq!(r1.is_ok(), r2.is_ok(), "construction must agree");
+    }
+    if let Some(n) = d.reid {
+        t.set_track_id(n);
+        m.id = n;
     }
     (t, m)
 }
